@@ -278,10 +278,14 @@ def check_splitting(ex, reg, src, name, m, separable=False):
     fi = src.func(FT, "ExplicitSymplecticIntegrator.step")
     st = State()
     one, zero = Poly.const(1), Poly.const(0)
-    fields = dict(tableau_intermediate=T, dState=BlockVec([LinComb.sym("stale_q"), LinComb.sym("stale_p")]), dTime=None, initial_rhs=None,
-                  drift_mask=BlockVec([one, zero]), kick_mask=BlockVec([zero, one]))
-    selfobj = st.new_obj("ExplicitSymplecticIntegrator", fields=fields)
     t, h = Poly.sym("t"), Poly.sym("h")
+    # the integrator object is in an arbitrary earlier state: whatever it cached at the end of a previous call (slopes, end time -- here
+    # adversarially *equal* to this call's start time --, end state of another trajectory) must not enter this step
+    fields = dict(tableau_intermediate=T, dState=BlockVec([LinComb.sym("stale_q"), LinComb.sym("stale_p")]), dTime=None, initial_rhs=None,
+                  drift_mask=BlockVec([one, zero]), kick_mask=BlockVec([zero, one]),
+                  final_rhs=BlockVec([LinComb.sym("stale_end_slope_q"), LinComb.sym("stale_end_slope_p")]), final_time=t,
+                  final_state=BlockVec([LinComb.sym("other_q"), LinComb.sym("other_p")]), initial_state=None, initial_time=None)
+    selfobj = st.new_obj("ExplicitSymplecticIntegrator", fields=fields)
     y = BlockVec([LinComb.sym("q"), LinComb.sym("p")])
     consts = st.new_obj("dict", "dict", items={})
     rhs = UFunc("rhs", "block", attrs=dict(nblocks=2))
